@@ -149,6 +149,69 @@ theorem skip_all_subprojects (cfg : Cfg) (sub : Str) (tag : Option Str) (h : ['*
     shouldInstall cfg sub tag = false := by
   simp [shouldInstall, hs, h]
 
+/-- the skip list is read by exact membership: a subproject is named iff one of the comma-separated fields of the
+option value, white space trimmed, *equals* its name -/
+theorem skip_is_exact_membership (raw sub : Str) :
+    sub ∈ parseList raw ↔ ∃ f ∈ splitOn ',' raw, strip f = sub := by
+  unfold parseList
+  exact List.mem_map
+
+/-- **selection through the command line** (`--skip-subprojects`, `--tags` as raw option strings): an entry is
+installed iff it is not (of a subproject AND that subproject's name is a member of the skip LIST — exact equality
+with a trimmed comma-separated field — or the list has the item `*`), and, when a non-empty `--tags` is given, its
+tag is a member of the tag list -/
+theorem selection_rule (p : Plan) (o : Opts) (sub : Str) (tag : Option Str) :
+    shouldInstall (mkCfg p o) sub tag = true ↔
+      ¬ (sub ≠ [] ∧ (sub ∈ parseList o.skipSubprojects ∨ ['*'] ∈ parseList o.skipSubprojects)) ∧
+      (∀ t0, o.tags = some t0 → t0 ≠ [] → parseList t0 ≠ [] → ∃ t, tag = some t ∧ t ∈ parseList t0) := by
+  rw [should_install_iff]
+  have hskip : (mkCfg p o).skip = parseList o.skipSubprojects := rfl
+  rw [hskip]
+  refine and_congr Iff.rfl ?_
+  cases ht : o.tags with
+  | none =>
+    have : (mkCfg p o).tags = none := by simp [mkCfg, ht]
+    simp [this]
+  | some t0 =>
+    by_cases h0 : t0 = []
+    · have : (mkCfg p o).tags = none := by simp [mkCfg, ht, h0]
+      simp [this, h0]
+    · have : (mkCfg p o).tags = some (parseList t0) := by simp [mkCfg, ht, h0]
+      simp [this, h0]
+
+/-- substring test, as a Boolean -/
+def hasInfix (a : Str) : Str → Bool
+  | [] => a.isEmpty
+  | b@(_ :: t) => a.isPrefixOf b || hasInfix a t
+
+/-- the statement "testing the subproject's name as a SUBSTRING of the raw option value selects the same entries" -/
+def skip_substring_statement : Prop :=
+  ∀ raw sub : Str, sub ≠ [] → (hasInfix sub (strip raw) = true ↔ (sub ∈ parseList raw ∨ ['*'] ∈ parseList raw))
+
+/-- it does not: skipping `core-utils` must not skip the subproject `core` (nor `utils`, nor `re-u`), and skipping
+`a,b` must not skip a subproject called `a,b` -/
+theorem skip_substring_counterexample : ¬ skip_substring_statement := by
+  intro h
+  have := h "core-utils".toList "core".toList (by decide)
+  revert this
+  decide
+
+def selPlan : Plan :=
+  { buildDir := "/b".toList, pfx := "/usr".toList, umask := none, subdirs := [], targets := [], headers := [], man := [],
+    emptydirs := [], data := [], symlinks := [] }
+
+example :
+    let o (s : String) : Opts := { destdir := some "/d".toList, dryRun := false, onlyChanged := false, tags := none,
+                                   skipSubprojects := s.toList, ambientUmask := 0o022 }
+    shouldInstall (mkCfg selPlan (o "core-utils")) "core".toList none = true ∧
+    shouldInstall (mkCfg selPlan (o "core-utils")) "core-utils".toList none = false ∧
+    shouldInstall (mkCfg selPlan (o " core , utils")) "core-utils".toList none = true ∧
+    shouldInstall (mkCfg selPlan (o " core , utils")) "utils".toList none = false ∧
+    shouldInstall (mkCfg selPlan (o "x,*")) "core".toList none = false ∧
+    shouldInstall (mkCfg selPlan (o "x*")) "core".toList none = true ∧
+    shouldInstall (mkCfg selPlan (o "*")) [] none = true := by
+  decide
+
 /-! ### permissions -/
 
 theorem andNot_and_self (x u : Nat) : andNot x u &&& u = 0 := by
